@@ -220,6 +220,7 @@ pub fn main(args: &[String]) -> i32 {
         obs::api("api_ret", &key, first_idx, 0, 0);
     }
     let sessions: usize = o.num("sessions", 1);
+    let futurepct: u32 = o.num("futurepct", 0);
     let mut prev_raw: Vec<RawEv> = Vec::new();
     let mut restart_reports: Vec<Value> = Vec::new();
     for session in 0..sessions {
@@ -295,6 +296,10 @@ pub fn main(args: &[String]) -> i32 {
                 1 => Some(now + rng.random_range(1..3) * E9),
                 _ => None,
             };
+            if futurepct > 0 && rng.random_range(0..100) < futurepct {
+                // C12: explicit versions ahead of the wall clock, so that recovery alone can know them
+                ts_choice = Some(now + rng.random_range(1..30) * E9 + step as u64);
+            }
             if fmt == 3 && key.len() < 100 && foldzero_pct > 0 && rng.random_range(0..100) < foldzero_pct {
                 let ts = now + 4 * E9 + step as u64;
                 let at = predict_alloc(&store.verif_free_runs(), 1);
@@ -451,7 +456,7 @@ pub fn main(args: &[String]) -> i32 {
         std::fs::write(&path, &img).expect("write restart image");
         raw1.push(RawEv { seq: 0, tid: 0, kind: "crash", key: Vec::new(), a: 0, b: 0, c: 0, data: serde_json::to_vec(&chosen).unwrap() });
         prev_raw.extend(raw1);
-        if ttl && rng.random_bool(0.5) {
+        if ttl && rng.random_range(0..100) < o.num("closedpct", 50u32) {
             // the store stays closed for a while: records with a TTL expire before it is reopened
             now += 5 * E9;
             feoxdb::verif::set_now(now);
